@@ -46,6 +46,10 @@ struct Case<'a> {
     /// (reserved protocol type / final mandatory extension that is not the protocol type): the refused call
     /// must leave nothing behind that changes how the next packet is encoded
     pre_fail: bool,
+    /// before the call under test, the same encapsulator sends a chain with the SAME ids whose mandatory
+    /// extensions carry data of other lengths (whatever the encapsulator remembers about a chain must not be
+    /// keyed on the ids alone)
+    pre_same_ids: bool,
 }
 
 /// returns outcome class
@@ -81,6 +85,20 @@ fn run_case(c: &Case, rng: &mut Rng, rep: &mut Report, replay: &dyn Fn() -> Stri
         match guard(|| enc.encap_ext(c.pdu, 9, EncapMetadata::new(pt, c.label), &mut b, ex)) {
             Ok(Err(_)) => rep.count("c13.pre-fail-refused"),
             _ => return "pre-fail-not-refused",
+        }
+    }
+    if c.pre_same_ids && c.chain.entries.iter().any(|e| e.id < 0x100) {
+        let mut other = c.chain.clone();
+        for e in other.entries.iter_mut() {
+            if e.id < 0x100 {
+                let n = if e.data.len() > 3 { e.data.len() / 2 } else { e.data.len() + 1 + c.buf_len % 3 };
+                e.data = vec![0xEE; n];
+            }
+        }
+        if let Some(ex) = other.to_crate() {
+            let mut b = vec![0u8; 4097];
+            let _ = guard(|| enc.encap_ext(b"other", 9, EncapMetadata::new(c.ptype, Label::Broadcast), &mut b, ex));
+            rep.count("c13.pre-same-ids");
         }
     }
     let mut buf = sentinel(c.buf_len, 0x3C);
@@ -315,7 +333,7 @@ impl Property for Prop {
         "C13"
     }
     fn rule(&self) -> &'static str {
-        "ctor: every extension id 0..=0xFFFF x data length 0..=10 (Ok <=> id < 0x0600 and (id < 0x0100 or length == H-LEN table), never a panic); small: seeded chains of 1..4 extensions (every optional H-LEN class, known non-final mandatory extensions with 0..8 data bytes, optionally a final mandatory extension last with type == its id) x all label kinds (incl. re-use substituted) x PDUs of 0..=64 bytes x EVERY buffer size from 5 to the full packet length + 2 (fragmentation at every offset inside and after the extension area) x storage == PDU length or larger; large: lattice-sized PDUs and buffers; ptypes: every protocol type 0..=0x06FF through encap_ext with a one-element chain (reserved range refused, everything accepted decodable); illegal: type < 0x0100 with a non-matching / non-mandatory last extension, types 0x0100..0x05FF, final extension not matching the type (an error is expected; Ok is judged by decodability). Each Ok result is decoded by the independent parser and by the real receiver with an all-knowing manager, then by a receiver lacking one mandatory id (the packet is dropped repeatedly, the following packet is still delivered, and the whole PDU stays dropped even when an older compatible train is open on the same fragment id). One legal case in four is preceded, on the same encapsulator, by an encap_ext call with the same label that is refused (reserved protocol type / non-matching final mandatory extension): the refused call must not change how the next packet is encoded. Non-trivial = a case that reached the receiver round trip; fingerprint = (chain shape, label, PDU length, buffer, storage)."
+        "ctor: every extension id 0..=0xFFFF x data length 0..=10 (Ok <=> id < 0x0600 and (id < 0x0100 or length == H-LEN table), never a panic); small: seeded chains of 1..4 extensions, one in eight of 5..14 (every optional H-LEN class, known non-final mandatory extensions with 0..8 data bytes, optionally a final mandatory extension last with type == its id) x all label kinds (incl. re-use substituted) x PDUs of 0..=64 bytes x EVERY buffer size from 5 to the full packet length + 2 (fragmentation at every offset inside and after the extension area) x storage == PDU length or larger; large: lattice-sized PDUs and buffers; ptypes: every protocol type 0..=0x06FF through encap_ext with a one-element chain (reserved range refused, everything accepted decodable); illegal: type < 0x0100 with a non-matching / non-mandatory last extension, types 0x0100..0x05FF, final extension not matching the type (an error is expected; Ok is judged by decodability). Each Ok result is decoded by the independent parser and by the real receiver with an all-knowing manager, then by a receiver lacking one mandatory id (the packet is dropped repeatedly, the following packet is still delivered, and the whole PDU stays dropped even when an older compatible train is open on the same fragment id). One legal case in four is preceded, on the same encapsulator, by an encap_ext call with the same label that is refused (reserved protocol type / non-matching final mandatory extension): the refused call must not change how the next packet is encoded; one case in four is preceded by an accepted call with the same extension ids but mandatory data of other lengths. Non-trivial = a case that reached the receiver round trip; fingerprint = (chain shape, label, PDU length, buffer, storage)."
     }
     fn gens(&self, cx: &Cx) -> Vec<Gen> {
         vec![
@@ -373,7 +391,7 @@ impl Property for Prop {
                 let chain = ExtSpec { entries: vec![ExtEntry { id: 0x0200 | (key as u16 & 0xFF), data: vec![0x11, 0x22] }], final_ext: false };
                 let pdu = gen_pdu(&mut rng, 20, 0);
                 for (label, bl) in [(Label::Broadcast, 64usize), (gen_label(&mut rng, 2), 20)] {
-                    let c = Case { chain: &chain, ptype, label, primed: false, pdu: &pdu, buf_len: bl, storage: 20, legal: ptype >= 0x600, pre_fail: false };
+                    let c = Case { chain: &chain, ptype, label, primed: false, pdu: &pdu, buf_len: bl, storage: 20, legal: ptype >= 0x600, pre_fail: false, pre_same_ids: false };
                     let o = run_case(&c, &mut rng, rep, &replay);
                     rep.count(&format!("c13.ptypes.{}", o));
                     if (0x0100..0x0600).contains(&ptype) && o != "error" {
@@ -385,7 +403,8 @@ impl Property for Prop {
                 }
             }
             "small" | "large" | "illegal" => {
-                let n = 1 + rng.below(4);
+                // 1..4 extensions; one chain in eight is long (5..14 extensions)
+                let n = if rng.chance(1, 8) { 5 + rng.below(10) } else { 1 + rng.below(4) };
                 let final_ext = rng.chance(1, 3);
                 let chain = gen_chain(&mut rng, n, final_ext);
                 let lcase = rng.below(7);
@@ -454,7 +473,7 @@ impl Property for Prop {
                             return;
                         }
                         let storage = if (bl + plen) % 2 == 0 { plen } else { plen + 1 + rng.below(40) };
-                        let c = Case { chain: &chain, ptype, label, primed, pdu: &pdu, buf_len: bl, storage, legal, pre_fail: legal && bl % 4 == 1 };
+                        let c = Case { chain: &chain, ptype, label, primed, pdu: &pdu, buf_len: bl, storage, legal, pre_fail: legal && bl % 4 == 1, pre_same_ids: bl % 4 == 2 };
                         let o = run_case(&c, &mut rng, rep, &replay);
                         rep.count(&format!("c13.{}", o));
                         if o.ends_with("-ok") {
@@ -481,7 +500,8 @@ impl Property for Prop {
                     };
                     let storage = if rng.chance(1, 2) { plen } else { plen + rng.below(100) };
                     let pre_fail = legal && rng.chance(1, 4);
-                    let c = Case { chain: &chain, ptype, label, primed, pdu: &pdu, buf_len: bl, storage, legal, pre_fail };
+                    let pre_same_ids = rng.chance(1, 4);
+                    let c = Case { chain: &chain, ptype, label, primed, pdu: &pdu, buf_len: bl, storage, legal, pre_fail, pre_same_ids };
                     let o = run_case(&c, &mut rng, rep, &replay);
                     rep.count(&format!("c13.{}.{}", gen, o));
                     if o.ends_with("-ok") {
